@@ -16,6 +16,7 @@ Line protocol driver for C03. State = (Impl sheet, Spec sheet). One output line 
   get <cell>
   mrg <cell> <cell> | unm <cell> <cell> | gm
   seq <dir> <cell> <n> {<setter> <kind> <a> <b>}^n     SetSheetRow (r) / SetSheetCol (c)
+  shh <seed> <n>                            seeded shared-formula history on a scratch file (oracle only)
   scn <name> <variant>                      scratch-file scenario (oracle only; must answer ok)
   obs <c1> <r1> <c2> <r2>                   observation of a box through the getter; cross-checked with Spec
 Cells are hex-encoded spellings, decoded by the C20 model. `~` is the empty token.
@@ -243,6 +244,8 @@ def stepLine (st : St) (w : List String) : St × String :=
   -- self-contained scenarios run on a scratch file by the harness (code outside the grid model, e.g. shared
   -- formulas): the specification is "the calls return", the model answers `ok`
   | ["scn", _, _] => (st, "ok")
+  -- a seeded history of shared-formula writes on a scratch file, judged by the harness' reference (oracle only)
+  | ["shh", _, _] => (st, "ok")
   | ["gsty", h] =>
     match decode h with
     | some (.ok (c, r), _) => let (st', res) := apply st (.getStyle c r); out st' res
